@@ -146,15 +146,16 @@ def run(chk):
     B = ("E", "SE", "S")
     f = "hy/core/result_macros.py::compile_match_expression"
     C("match/0", lambda s: E(S("match"), s), 1, B, fn=f)
-    C("match/1", lambda s, b: E(S("match"), s, S("x"), b), 2, B, fn=f)
-    C("match/2", lambda s, a, b: E(S("match"), s, Integer(1), a, S("_"), b), 3, B, kind="arity_bounded", fn=f)
+    BT = B + ("T",)      # T: a child that leaves its value in a result temporary (rules may look at Result.temp_variables)
+    C("match/1", lambda s, b: E(S("match"), s, S("x"), b), 2, BT, fn=f)
+    C("match/2", lambda s, a, b: E(S("match"), s, Integer(1), a, S("_"), b), 3, BT, kind="arity_bounded", fn=f)
     C("match/3", lambda s, a, b, c: E(S("match"), s, Integer(1), a, List([S("p")]), b, S("_"), c), 4, B, kind="arity_bounded", fn=f)
-    C("match/guard-1", lambda s, g, a: E(S("match"), s, S("x"), Keyword("if"), g, a), 3, B, fn=f)
+    C("match/guard-1", lambda s, g, a: E(S("match"), s, S("x"), Keyword("if"), g, a), 3, BT, fn=f)
     C("match/guard-2", lambda s, g, a, h, b: E(S("match"), s, S("x"), Keyword("if"), g, a, S("y"), Keyword("if"), h, b), 5,
       [("E",), B, ("E", "SE"), B, ("E", "SE")], kind="arity_bounded", fn=f)
     C("match/guard-then-default", lambda s, g, a, b: E(S("match"), s, S("x"), Keyword("if"), g, a, S("_"), b), 4, B,
       kind="arity_bounded", fn=f)
-    C("match/as", lambda s, a: E(S("match"), s, Integer(1), Keyword("as"), S("w"), a), 2, B, fn=f)
+    C("match/as", lambda s, a: E(S("match"), s, Integer(1), Keyword("as"), S("w"), a), 2, BT, fn=f)
     C("match/value-used", lambda s, a, b: E(S("if"), E(S("match"), s, Integer(1), a), b, b), 3, ("E", "SE"), kind="arity_bounded")
     rules.run_cases(chk, ["match/0", "match/1", "match/2", "match/3", "match/guard-1", "match/guard-2", "match/guard-then-default",
                           "match/as", "match/value-used"])
